@@ -5,7 +5,7 @@ from props import _mp4family as fam
 
 def gen(run):
     quick = run.tier == "quick"
-    yield from P.standard_stream(run, 400 if quick else 8000, 60 if quick else 2000, 2 if quick else 4)
+    yield from P.standard_stream(run, 400 if quick else 40000, 60 if quick else 10000, 2 if quick else 4)
 
 
 fam.make(globals(), "C02", ["C02"], gen, second_run=True)
